@@ -356,7 +356,7 @@ def params(sh):
     for val in ('both', 'next', 'last'):
         P += [('direction-valid|compute_amp_consistency %r' % val, 'accept', lambda val=val: compute_amp_consistency(shapes, direction=val)),
               ('direction-valid|compute_period_consistency %r' % val, 'accept', lambda val=val: compute_period_consistency(shapes, direction=val))]
-    for val in ('bar', 'TQDM', 1):
+    for val in ('bar', 'TQDM', 1, False, 0, '', True):
         P += [('progress|progress_bar %r' % (val,), 'reject', lambda val=val: list(progress_bar(iter([1, 2]), val, 2))),
               ('progress|compute_features_2d %r' % (val,), 'reject', lambda val=val: compute_features_2d(s2, FS, FR, n_jobs=1, progress=val)),
               ('progress|compute_features_3d %r' % (val,), 'reject', lambda val=val: compute_features_3d(s3, FS, FR, n_jobs=1, progress=val)),
